@@ -7,7 +7,7 @@
 //
 // Part B (epoch ticks): every history of length <= 5 over {NewEpoch(+1), NewEpoch(same), NewEpoch(+2),
 // NewEpoch(-1), NewEpoch(+1, unknown tx height), block reaching the deadline, early block, membership flip},
-// from a member and from a non-member start (quick tier: length <= 4). Oracle (reference model of epoch counter and deadline): a block
+// from a member and from a non-member start (quick tier: length <= 4, thorough: <= 6). Oracle (reference model of epoch counter and deadline): a block
 // that makes the epoch timer fire makes an alphabet member ask netmap.newEpoch(EpochCounter+1) exactly once and
 // a non-member never; nothing else ever asks for a new epoch.
 package main
@@ -489,7 +489,7 @@ func main() {
 
 	r.Set("part_a_wall_s", time.Since(t0).Seconds())
 	// ---- Part B ----
-	depth := 5
+	depth := 6
 	if r.Quick() {
 		depth = 4
 	}
@@ -531,7 +531,7 @@ func main() {
 	r.Set("admission_cases", len(acases))
 	r.Set("epoch_histories", len(bcases))
 	r.Set("epoch_history_depth", depth)
-	r.Rule("A: full product key{plain,NNS-listed,malformed} x endpoints{ok,ok-tls,udp,garbage,unreachable,lying,none,ok+udp} x state{online,maintenance,offline,unknown} x LOCODE{none,good,wrong country,unknown} x verified domain{none,listed domain,other} x external verdict{accept,reject} x external validator configured{no,yes} x chain verdict on script{valid,invalid,error,valid+error} in member state (+ the valid-script half again for a non-member); non-trivial = member, valid tx, and at most one validator rejects. B: every operation history of length 1..depth (quick 4, thorough 5) over 8 operations from member and non-member start; non-trivial = distinct history prefix ending in a timer fire answered by a tick")
+	r.Rule("A: full product key{plain,NNS-listed,malformed} x endpoints{ok,ok-tls,udp,garbage,unreachable,lying,none,ok+udp} x state{online,maintenance,offline,unknown} x LOCODE{none,good,wrong country,unknown} x verified domain{none,listed domain,other} x external verdict{accept,reject} x external validator configured{no,yes} x chain verdict on script{valid,invalid,error,valid+error} in member state (+ the valid-script half again for a non-member); non-trivial = member, valid tx, and at most one validator rejects. B: every operation history of length 1..depth (quick 4, thorough 6) over 8 operations from member and non-member start; non-trivial = distinct history prefix ending in a timer fire answered by a tick")
 	r.Exhaustive(exhaustive)
 	r.Assume("the availability validator's dial, the external validator's HTTP call and the NNS read are environment: answered as pure functions of the descriptor",
 		"the per-validator verdict used by the oracle is the verdict of that validator's own Verify called alone on the descriptor (the composition and the wiring are under test, not each validator's rules)",
